@@ -31,6 +31,7 @@ func cmdRun(args []string) int {
 	qto := fs.Duration("qto", 10*time.Second, "solver query timeout")
 	jsonOut := fs.String("json", "", "write result JSON here")
 	sleep := fs.Bool("sleep", true, "sleep-set reduction")
+	solverKind := fs.String("solver", "z3", "z3 | z3-new | cvc5")
 	outcomes := fs.Bool("outcomes", false, "print the set of distinct observation tuples")
 	cpuprof := fs.String("cpuprofile", "", "write CPU profile")
 	fs.Parse(args)
@@ -42,7 +43,7 @@ func cmdRun(args []string) int {
 	}
 	cfg := interp.Config{Workers: *workers, ConcretizeCap: *ccap, PreemptionBound: *pb, MaxSteps: *steps,
 		MaxConcreteAlloc: 1 << 22, MaxPaths: *maxPaths, RaceDetect: *race, QueryTimeout: *qto, Verbose: *verbose,
-		Trace: *trace, KeepSamples: 2000, SleepSets: *sleep}
+		Trace: *trace, KeepSamples: 2000, SleepSets: *sleep, Solver: *solverKind}
 	e, s, err := loadEngine(*verif, *repo, []string{*sub}, cfg)
 	if err != nil {
 		fmt.Fprintln(os.Stderr, "load:", err)
